@@ -909,6 +909,42 @@ extern "C" int lstat64( const char* path, struct stat64* st)
    return fn( path, st);
 }
 
+namespace {
+/// fstat() on a simulated descriptor: the simulated file, not the memfd that
+/// stands behind the descriptor
+int simFstat( int fd, struct stat* st)
+{
+   World&     wd = w();
+   OpenDesc&  d = wd.fds[ fd];
+   countCall( ccStat, false);
+   harvest( fd);
+   memset( st, 0, sizeof( *st));
+   st->st_mode = d.node->dir ? (S_IFDIR | 0755) : (S_IFREG | (d.node->unreadable ? 0200 : 0644));
+   st->st_nlink = 1;
+   st->st_size = d.node->dir ? 4096 : static_cast< off_t>( d.node->data.size());
+   st->st_blksize = 4096;
+   st->st_blocks = (st->st_size + 511) / 512;
+   st->st_ino = static_cast< ino_t>( reinterpret_cast< uintptr_t>( d.node.get()) >> 4);
+   st->st_mtime = st->st_atime = st->st_ctime = static_cast< time_t>( wd.now);
+   ev( "fstat", d.path, 0, st->st_size);
+   return 0;
+}
+}
+
+extern "C" int fstat( int fd, struct stat* st)
+{
+   if (simFd( fd)) return simFstat( fd, st);
+   static auto  fn = real( static_cast< int (*)( int, struct stat*)>( nullptr), "fstat");
+   return fn( fd, st);
+}
+
+extern "C" int fstat64( int fd, struct stat64* st)
+{
+   if (simFd( fd)) return simFstat( fd, reinterpret_cast< struct stat*>( st));
+   static auto  fn = real( static_cast< int (*)( int, struct stat64*)>( nullptr), "fstat64");
+   return fn( fd, st);
+}
+
 extern "C" int fstatat( int dirfd, const char* path, struct stat* st, int flags)
 {
    if (isSim( path)) return simStat( path, st);
